@@ -80,10 +80,19 @@ def retryable_exc(kind, site):
     return e
 
 
+_PERIODS = {}
+
+
 def pattern_bytes(n, salt=0, start=0):
-    """Position-dependent payload: displacement, overlap and duplication are
-    all visible."""
-    return bytes(((7 * i + salt) % 251) for i in range(start, start + n))
+    """Position-dependent payload ((7*i+salt) mod 251 at position i):
+    displacement, overlap and duplication are all visible."""
+    base = _PERIODS.get(salt % 251)
+    if base is None:
+        base = bytes(((7 * i + salt) % 251) for i in range(251))
+        _PERIODS[salt % 251] = base
+    off = start % 251
+    reps = (off + n) // 251 + 1
+    return (base * reps)[off:off + n]
 
 
 class Trace:
